@@ -826,7 +826,7 @@ def run(ctx):
     seqx.pbfs(ctx, mkC, [[]], dC)
     ctx.bound["C_2handles_depth"] = dC
     # deeper with a reduced alphabet: stale handles need new+new+enter+set+exit+enter(other)+...
-    dC2 = 9 if thorough else 7
+    dC2 = 8 if thorough else 7
     mkC2 = lambda c: CSys(c, nhandles=3 if thorough else 2, keys=["a", "k256"], vals={"x": b"x"}, bufs=["dflt", "large"], label="C3")
     seqx.pbfs(ctx, mkC2, [[]], dC2)
     ctx.bound["C_reduced_alphabet_depth"] = dC2
